@@ -1,9 +1,9 @@
 package main
 
 import (
-	"strings"
 	"fmt"
 	"math"
+	"strings"
 	"time"
 
 	"github.com/pip-services3-gox/pip-services3-expressions-gox/variants"
